@@ -699,6 +699,10 @@ func writeBodyType1part(enc *imapwire.Encoder, bs *imap.BodyStructureSinglePart,
 		enc.SP().Number64(msg.NumLines)
 	} else if text := bs.Text; text != nil {
 		enc.SP().Number64(text.NumLines)
+	} else if strings.EqualFold(bs.Type, "text") {
+		// body-type-text always carries a line count: clients decide by the
+		// media type whether to read one
+		enc.SP().Number64(0)
 	}
 
 	if !extended {
